@@ -1,3 +1,494 @@
 import IgrisModel.C02.Model
+/-!
+  C02 helper lemmas: exact results of the slot-event loops on buffers described
+  pointwise, and the representation relation `Rep v xs`.
+-/
 namespace Igris.C02
+
+/-! ### ledger bookkeeping -/
+namespace Ledger
+@[simp] theorem addCtor_addCtor (l : Ledger) (a b : Nat) : (l.addCtor a).addCtor b = l.addCtor (a + b) := by
+  simp [addCtor, Nat.add_assoc]
+@[simp] theorem addMctor_addMctor (l : Ledger) (a b : Nat) : (l.addMctor a).addMctor b = l.addMctor (a + b) := by
+  simp [addMctor, Nat.add_assoc]
+@[simp] theorem addDtor_addDtor (l : Ledger) (a b : Nat) : (l.addDtor a).addDtor b = l.addDtor (a + b) := by
+  simp [addDtor, Nat.add_assoc]
+@[simp] theorem addAsg_addAsg (l : Ledger) (a b : Nat) : (l.addAsg a).addAsg b = l.addAsg (a + b) := by
+  simp [addAsg, Nat.add_assoc]
+@[simp] theorem addMasg_addMasg (l : Ledger) (a b : Nat) : (l.addMasg a).addMasg b = l.addMasg (a + b) := by
+  simp [addMasg, Nat.add_assoc]
+@[simp] theorem addCtor_zero (l : Ledger) : l.addCtor 0 = l := by simp [addCtor]
+@[simp] theorem addMctor_zero (l : Ledger) : l.addMctor 0 = l := by simp [addMctor]
+@[simp] theorem addDtor_zero (l : Ledger) : l.addDtor 0 = l := by simp [addDtor]
+@[simp] theorem addAsg_zero (l : Ledger) : l.addAsg 0 = l := by simp [addAsg]
+@[simp] theorem addMasg_zero (l : Ledger) : l.addMasg 0 = l := by simp [addMasg]
+
+/-- objects alive according to the ledger: constructed − destroyed (as an Int) -/
+def net (l : Ledger) : Int := (l.ctor : Int) + l.mctor - l.dtor
+/-- blocks held according to the ledger -/
+def blocks (l : Ledger) : Int := (l.alloc : Int) - l.dealloc
+@[simp] theorem net_addCtor (l : Ledger) (n : Nat) : (l.addCtor n).net = l.net + n := by simp [net, addCtor]; omega
+@[simp] theorem net_addMctor (l : Ledger) (n : Nat) : (l.addMctor n).net = l.net + n := by simp [net, addMctor]; omega
+@[simp] theorem net_addDtor (l : Ledger) (n : Nat) : (l.addDtor n).net = l.net - n := by simp [net, addDtor]; omega
+@[simp] theorem net_addAsg (l : Ledger) (n : Nat) : (l.addAsg n).net = l.net := by simp [net, addAsg]
+@[simp] theorem net_addMasg (l : Ledger) (n : Nat) : (l.addMasg n).net = l.net := by simp [net, addMasg]
+@[simp] theorem net_addAlloc (l : Ledger) (n : Nat) : (l.addAlloc n).net = l.net := by simp [net, addAlloc]
+@[simp] theorem net_addDealloc (l : Ledger) (n : Nat) : (l.addDealloc n).net = l.net := by simp [net, addDealloc]
+@[simp] theorem blocks_addCtor (l : Ledger) (n : Nat) : (l.addCtor n).blocks = l.blocks := by simp [blocks, addCtor]
+@[simp] theorem blocks_addMctor (l : Ledger) (n : Nat) : (l.addMctor n).blocks = l.blocks := by simp [blocks, addMctor]
+@[simp] theorem blocks_addDtor (l : Ledger) (n : Nat) : (l.addDtor n).blocks = l.blocks := by simp [blocks, addDtor]
+@[simp] theorem blocks_addAsg (l : Ledger) (n : Nat) : (l.addAsg n).blocks = l.blocks := by simp [blocks, addAsg]
+@[simp] theorem blocks_addMasg (l : Ledger) (n : Nat) : (l.addMasg n).blocks = l.blocks := by simp [blocks, addMasg]
+@[simp] theorem blocks_addAlloc (l : Ledger) (n : Nat) : (l.addAlloc n).blocks = l.blocks + n := by simp [blocks, addAlloc]; omega
+@[simp] theorem blocks_addDealloc (l : Ledger) (n : Nat) : (l.addDealloc n).blocks = l.blocks - n := by simp [blocks, addDealloc]; omega
+end Ledger
+
+/-! ### slot events on known slots -/
+
+theorem construct_raw {b : Buf} {i : Nat} (v : Val) (h : i < b.n) (hs : b.s i = .raw) :
+    construct b i v = some (b.put i (.live v)) := by
+  simp [construct, Buf.get, h, hs]
+
+theorem destroy_obj {b : Buf} {i : Nat} (h : i < b.n) (hs : b.s i ≠ .raw) :
+    destroy b i = some (b.put i .raw) := by
+  unfold destroy
+  simp only [Buf.get, h, if_true]
+  cases hh : b.s i <;> simp_all
+
+theorem assign_obj {b : Buf} {i : Nat} (v : Val) (h : i < b.n) (hs : b.s i ≠ .raw) :
+    assign b i v = some (b.put i (.live v)) := by
+  unfold assign
+  simp only [Buf.get, h, if_true]
+  cases hh : b.s i <;> simp_all
+
+theorem rd_live {b : Buf} {i : Nat} {v : Val} (h : i < b.n) (hs : b.s i = .live v) : rd b i = some v := by
+  simp [rd, Buf.get, h, hs]
+
+theorem moveOut_live {b : Buf} {i : Nat} {v : Val} (h : i < b.n) (hs : b.s i = .live v) :
+    moveOut b i = some (v, b.put i .moved) := by
+  simp [moveOut, Buf.get, h, hs]
+
+theorem Buf.ext' {a b : Buf} (hn : a.n = b.n) (hs : ∀ j, a.s j = b.s j) : a = b := by
+  cases a; cases b; simp at hn hs ⊢; exact ⟨hn, funext hs⟩
+
+/-! ### loops -/
+
+theorem destroyRange_ok (b : Buf) (i n : Nat) (l : Ledger)
+    (h : ∀ j, i ≤ j → j < i + n → j < b.n ∧ b.s j ≠ .raw) :
+    destroyRange b i n l =
+      some (⟨b.n, fun j => if i ≤ j ∧ j < i + n then .raw else b.s j⟩, l.addDtor n) := by
+  induction n generalizing b i l with
+  | zero =>
+    simp only [destroyRange, Ledger.addDtor_zero]
+    congr 2
+    apply Buf.ext'
+    · rfl
+    · intro j; simp; omega
+  | succ n ih =>
+    have h0 := h i (Nat.le_refl _) (by omega)
+    simp only [destroyRange, destroy_obj h0.1 h0.2]
+    rw [ih]
+    · simp only [Ledger.addDtor_addDtor, Nat.add_comm 1 n]
+      congr 2
+      apply Buf.ext'
+      · rfl
+      · intro j; simp only [Buf.put]
+        grind
+    · intro j h1 h2
+      have := h j (by omega) (by omega)
+      simp only [Buf.put]
+      grind
+
+theorem moveCtorLoop_ok (f : Nat → Val) (ob nb : Buf) (i n : Nat) (l : Ledger)
+    (h : ∀ j, i ≤ j → j < i + n → j < ob.n ∧ ob.s j = .live (f j) ∧ j < nb.n ∧ nb.s j = .raw) :
+    moveCtorLoop ob nb i n l =
+      some (⟨ob.n, fun j => if i ≤ j ∧ j < i + n then .moved else ob.s j⟩,
+            ⟨nb.n, fun j => if i ≤ j ∧ j < i + n then .live (f j) else nb.s j⟩, l.addMctor n) := by
+  induction n generalizing ob nb i l with
+  | zero =>
+    simp only [moveCtorLoop, Ledger.addMctor_zero]
+    congr 2
+    · apply Buf.ext'
+      · rfl
+      · intro j; simp; omega
+    · congr 1
+      apply Buf.ext'
+      · rfl
+      · intro j; simp; omega
+  | succ n ih =>
+    have h0 := h i (Nat.le_refl _) (by omega)
+    simp only [moveCtorLoop, moveOut_live h0.1 h0.2.1, construct_raw (f i) h0.2.2.1 h0.2.2.2]
+    rw [ih]
+    · simp only [Ledger.addMctor_addMctor, Nat.add_comm 1 n]
+      congr 2
+      · apply Buf.ext'
+        · rfl
+        · intro j; simp only [Buf.put]; grind
+      · congr 1
+        apply Buf.ext'
+        · rfl
+        · intro j; simp only [Buf.put]; grind
+    · intro j h1 h2
+      have := h j (by omega) (by omega)
+      simp only [Buf.put]
+      grind
+
+theorem copyLoop_ok (f : Nat → Val) (o nb : Buf) (i n : Nat) (l : Ledger)
+    (h : ∀ j, i ≤ j → j < i + n → j < o.n ∧ o.s j = .live (f j) ∧ j < nb.n ∧ nb.s j = .raw) :
+    copyLoop (some o) nb i n l =
+      some (⟨nb.n, fun j => if i ≤ j ∧ j < i + n then .live (f j) else nb.s j⟩, l.addCtor n) := by
+  induction n generalizing nb i l with
+  | zero =>
+    simp only [copyLoop, Ledger.addCtor_zero]
+    congr 2
+    apply Buf.ext'
+    · rfl
+    · intro j; simp; omega
+  | succ n ih =>
+    have h0 := h i (Nat.le_refl _) (by omega)
+    simp only [copyLoop, rd_live h0.1 h0.2.1, construct_raw (f i) h0.2.2.1 h0.2.2.2]
+    rw [ih]
+    · simp only [Ledger.addCtor_addCtor, Nat.add_comm 1 n]
+      congr 2
+      apply Buf.ext'
+      · rfl
+      · intro j; simp only [Buf.put]; grind
+    · intro j h1 h2
+      have := h j (by omega) (by omega)
+      simp only [Buf.put]
+      grind
+
+theorem copyLoop_zero (ob : Option Buf) (nb : Buf) (i : Nat) (l : Ledger) :
+    copyLoop ob nb i 0 l = some (nb, l) := by simp [copyLoop]
+
+theorem defaultLoop_ok (b : Buf) (i n : Nat) (l : Ledger)
+    (h : ∀ j, i ≤ j → j < i + n → j < b.n ∧ b.s j = .raw) :
+    defaultLoop b i n l =
+      some (⟨b.n, fun j => if i ≤ j ∧ j < i + n then .live 0 else b.s j⟩, l.addCtor n) := by
+  induction n generalizing b i l with
+  | zero =>
+    simp only [defaultLoop, Ledger.addCtor_zero]
+    congr 2
+    apply Buf.ext'
+    · rfl
+    · intro j; simp; omega
+  | succ n ih =>
+    have h0 := h i (Nat.le_refl _) (by omega)
+    simp only [defaultLoop, construct_raw 0 h0.1 h0.2]
+    rw [ih]
+    · simp only [Ledger.addCtor_addCtor, Nat.add_comm 1 n]
+      congr 2
+      apply Buf.ext'
+      · rfl
+      · intro j; simp only [Buf.put]; grind
+    · intro j h1 h2
+      have := h j (by omega) (by omega)
+      simp only [Buf.put]
+      grind
+
+/-- the ledger part of `shiftUp` -/
+def shiftLed (size pos k : Nat) : Nat → Ledger → Ledger
+  | 0, l => l
+  | cnt + 1, l => shiftLed size pos k cnt (if pos + cnt + k ≥ size then l.addMctor 1 else l.addMasg 1)
+
+theorem shiftLed_net (size pos k cnt : Nat) (l : Ledger) :
+    (shiftLed size pos k cnt l).net = l.net + ((cnt - min cnt (size - pos - k) : Nat) : Int) ∧
+    (shiftLed size pos k cnt l).blocks = l.blocks := by
+  induction cnt generalizing l with
+  | zero => simp [shiftLed]
+  | succ n ih =>
+    simp only [shiftLed]
+    split
+    · rw [(ih _).1, (ih _).2]; simp; omega
+    · rw [(ih _).1, (ih _).2]; simp; omega
+
+theorem shiftUp_ok (f : Nat → Val) (b : Buf) (size pos k cnt : Nat) (l : Ledger)
+    (hk : 0 < k) (hc : pos + cnt ≤ size) (hn : size + k ≤ b.n)
+    (hlive : ∀ j, pos ≤ j → j < pos + cnt → b.s j = .live (f j))
+    (hgap : ∀ j, pos + cnt ≤ j → j < pos + cnt + k → (j < size → b.s j = .moved) ∧ (size ≤ j → b.s j = .raw)) :
+    shiftUp b size pos k cnt l =
+      some (⟨b.n, fun j =>
+              if pos ≤ j ∧ j < pos + k then (if j < size then .moved else .raw)
+              else if pos + k ≤ j ∧ j < pos + cnt + k then .live (f (j - k))
+              else b.s j⟩, shiftLed size pos k cnt l) := by
+  induction cnt generalizing b l with
+  | zero =>
+    simp only [shiftUp, shiftLed]
+    congr 2
+    apply Buf.ext'
+    · rfl
+    · intro j
+      have := hgap j
+      simp only
+      grind
+  | succ n ih =>
+    have hl := hlive (pos + n) (by omega) (by omega)
+    have hg := hgap (pos + n + k) (by omega) (by omega)
+    simp only [shiftUp, moveOut_live (show pos + n < b.n by omega) hl]
+    by_cases hd : pos + n + k ≥ size
+    · have hraw : (b.put (pos + n) .moved).s (pos + n + k) = .raw := by
+        simp only [Buf.put]; rw [if_neg (by omega)]; exact hg.2 hd
+      simp only [hd, if_true, construct_raw (f (pos + n)) (show pos + n + k < (b.put (pos + n) .moved).n by simp [Buf.put]; omega) hraw, shiftLed]
+      rw [ih]
+      · congr 2
+        apply Buf.ext'
+        · rfl
+        · intro j; simp only [Buf.put]; grind
+      · omega
+      · simp [Buf.put]; omega
+      · intro j h1 h2
+        have := hlive j h1 (by omega)
+        simp only [Buf.put]; grind
+      · intro j h1 h2
+        have := hgap j
+        simp only [Buf.put]; grind
+    · have hmv : (b.put (pos + n) .moved).s (pos + n + k) ≠ .raw := by
+        simp only [Buf.put]; rw [if_neg (by omega)]; rw [hg.1 (by omega)]; simp
+      simp only [hd, if_false, assign_obj (f (pos + n)) (show pos + n + k < (b.put (pos + n) .moved).n by simp [Buf.put]; omega) hmv, shiftLed]
+      rw [ih]
+      · congr 2
+        apply Buf.ext'
+        · rfl
+        · intro j; simp only [Buf.put]; grind
+      · omega
+      · simp [Buf.put]; omega
+      · intro j h1 h2
+        have := hlive j h1 (by omega)
+        simp only [Buf.put]; grind
+      · intro j h1 h2
+        have := hgap j
+        simp only [Buf.put]; grind
+
+/-- the ledger part of `fillLoop` -/
+def fillLed (pos oldsize : Nat) (k : Nat) : Nat → Ledger → Ledger
+  | 0, l => l
+  | n + 1, l => fillLed pos oldsize (k + 1) n (if pos + k < oldsize then l.addAsg 1 else l.addCtor 1)
+
+theorem fillLed_net (pos oldsize k n : Nat) (l : Ledger) :
+    (fillLed pos oldsize k n l).net = l.net + ((n - min n (oldsize - pos - k) : Nat) : Int) ∧
+    (fillLed pos oldsize k n l).blocks = l.blocks := by
+  induction n generalizing l k with
+  | zero => simp [fillLed]
+  | succ n ih =>
+    simp only [fillLed]
+    split
+    · rw [(ih _ _).1, (ih _ _).2]; simp; omega
+    · rw [(ih _ _).1, (ih _ _).2]; simp; omega
+
+theorem fillLoop_ok (g : Nat → Val) (b : Buf) (pos oldsize sz : Nat) (src : Src) (k n : Nat) (l : Ledger)
+    (hkn : k + n ≤ sz)
+    (hsrc : ∀ k', k ≤ k' → k' < k + n → ∀ b' : Buf, b'.n = b.n →
+        (∀ j, ¬ (pos ≤ j ∧ j < pos + sz) → b'.s j = b.s j) → srcVal b' pos sz src k' = some (g k'))
+    (hdst : ∀ j, pos + k ≤ j → j < pos + k + n →
+        j < b.n ∧ (j < oldsize → b.s j ≠ .raw) ∧ (oldsize ≤ j → b.s j = .raw)) :
+    fillLoop b pos oldsize sz src k n l =
+      some (⟨b.n, fun j => if pos + k ≤ j ∧ j < pos + k + n then .live (g (j - pos)) else b.s j⟩,
+            fillLed pos oldsize k n l) := by
+  induction n generalizing b k l with
+  | zero =>
+    simp only [fillLoop, fillLed]
+    congr 2
+    apply Buf.ext'
+    · rfl
+    · intro j; simp; omega
+  | succ n ih =>
+    have hs := hsrc k (Nat.le_refl _) (by omega) b rfl (fun _ _ => rfl)
+    have hd := hdst (pos + k) (Nat.le_refl _) (by omega)
+    simp only [fillLoop, hs, fillLed]
+    by_cases hlt : pos + k < oldsize
+    · simp only [hlt, if_true, assign_obj (g k) hd.1 (hd.2.1 hlt)]
+      rw [ih]
+      · congr 2
+        apply Buf.ext'
+        · rfl
+        · intro j; simp only [Buf.put]; grind
+      · omega
+      · intro k' h1 h2 b' hb' hag
+        apply hsrc k' (by omega) (by omega) b' (by simpa [Buf.put] using hb')
+        intro j hj
+        rw [hag j hj]; simp only [Buf.put]; rw [if_neg]; omega
+      · intro j h1 h2
+        have := hdst j (by omega) (by omega)
+        simp only [Buf.put]; grind
+    · simp only [hlt, if_false, construct_raw (g k) hd.1 (hd.2.2 (by omega))]
+      rw [ih]
+      · congr 2
+        apply Buf.ext'
+        · rfl
+        · intro j; simp only [Buf.put]; grind
+      · omega
+      · intro k' h1 h2 b' hb' hag
+        apply hsrc k' (by omega) (by omega) b' (by simpa [Buf.put] using hb')
+        intro j hj
+        rw [hag j hj]; simp only [Buf.put]; rw [if_neg]; omega
+      · intro j h1 h2
+        have := hdst j (by omega) (by omega)
+        simp only [Buf.put]; grind
+
+theorem moveDown_ok (f : Nat → Val) (b : Buf) (src dst n : Nat) (l : Ledger)
+    (hds : dst < src)
+    (hsrc : ∀ j, src ≤ j → j < src + n → j < b.n ∧ b.s j = .live (f j))
+    (hdst : ∀ j, dst ≤ j → j < dst + n → b.s j ≠ .raw) :
+    moveDown b src dst n l =
+      some (⟨b.n, fun j =>
+              if dst ≤ j ∧ j < dst + n then .live (f (j + (src - dst)))
+              else if src ≤ j ∧ j < src + n then .moved else b.s j⟩, l.addMasg n) := by
+  induction n generalizing b src dst l with
+  | zero =>
+    simp only [moveDown, Ledger.addMasg_zero]
+    congr 2
+    apply Buf.ext'
+    · rfl
+    · intro j; simp only; grind
+  | succ n ih =>
+    have hs := hsrc src (Nat.le_refl _) (by omega)
+    have hd := hdst dst (Nat.le_refl _) (by omega)
+    have hd' : (b.put src .moved).s dst ≠ .raw := by
+      simp only [Buf.put]; rw [if_neg (by omega)]; exact hd
+    simp only [moveDown, moveOut_live hs.1 hs.2,
+      assign_obj (f src) (show dst < (b.put src .moved).n by simp [Buf.put]; omega) hd']
+    rw [ih]
+    · simp only [Ledger.addMasg_addMasg, Nat.add_comm 1 n]
+      congr 2
+      apply Buf.ext'
+      · rfl
+      · intro j
+        have e : src + 1 - (dst + 1) = src - dst := by omega
+        simp only [Buf.put, e]
+        have : dst + (src - dst) = src := by omega
+        grind
+    · omega
+    · intro j h1 h2
+      have := hsrc j (by omega) (by omega)
+      simp only [Buf.put]; grind
+    · intro j h1 h2
+      by_cases hj : j = src
+      · subst hj; simp only [Buf.put]; grind
+      · have := hdst j (by omega) (by omega)
+        simp only [Buf.put]; grind
+
+/-! ### representation of a `List Val` by a vector -/
+
+/-- slot `i` of a buffer that holds exactly the elements `xs` -/
+def cell (xs : List Val) (i : Nat) : Slot := if i < xs.length then .live (xs.getD i 0) else .raw
+
+def Rep (v : Vec) (xs : List Val) : Prop :=
+  v.size = xs.length ∧
+  match v.data with
+  | none => v.cap = 0 ∧ xs = []
+  | some b => b.n = v.cap ∧ xs.length ≤ v.cap ∧ ∀ i, b.s i = cell xs i
+
+def held (v : Vec) : Int := if v.data.isSome then 1 else 0
+
+structure Good (v : Vec) (xs : List Val) (l : Ledger) (v' : Vec) (xs' : List Val) (l' : Ledger) : Prop where
+  rep : Rep v' xs'
+  net : l'.net = l.net + xs'.length - xs.length
+  blk : l'.blocks = l.blocks + held v' - held v
+
+theorem cell_nil (i : Nat) : cell [] i = .raw := by simp [cell]
+
+theorem cell_snoc (xs : List Val) (x : Val) (i : Nat) :
+    cell (xs ++ [x]) i = if i = xs.length then .live x else cell xs i := by
+  simp only [cell, List.length_append, List.length_singleton, List.getD_eq_getElem?_getD, List.getElem?_append]
+  grind
+
+theorem cell_dropLast (xs : List Val) (i : Nat) :
+    cell xs.dropLast i = if i + 1 < xs.length then cell xs i else .raw := by
+  simp only [cell, List.length_dropLast, List.getD_eq_getElem?_getD, List.getElem?_dropLast]
+  grind
+
+theorem cell_take (xs : List Val) (k i : Nat) :
+    cell (xs.take k) i = if i < k then cell xs i else .raw := by
+  simp only [cell, List.length_take, List.getD_eq_getElem?_getD, List.getElem?_take]
+  grind
+
+theorem cell_insertAt (xs ys : List Val) (p i : Nat) (hp : p ≤ xs.length) :
+    cell (insertAt xs p ys) i =
+      if i < p then cell xs i else if i < p + ys.length then .live (ys.getD (i - p) 0) else cell xs (i - ys.length) := by
+  simp only [cell, insertAt, List.length_append, List.length_take, List.length_drop,
+    List.getD_eq_getElem?_getD, List.getElem?_append, List.getElem?_take, List.getElem?_drop]
+  grind
+
+theorem cell_erase (xs : List Val) (a b i : Nat) (hab : a ≤ b) (hb : b ≤ xs.length) :
+    cell (xs.take a ++ xs.drop b) i = if i < a then cell xs i else cell xs (i + (b - a)) := by
+  simp only [cell, List.length_append, List.length_take, List.length_drop,
+    List.getD_eq_getElem?_getD, List.getElem?_append, List.getElem?_take, List.getElem?_drop]
+  grind
+
+theorem cell_resize (xs : List Val) (n i : Nat) :
+    cell (xs.take n ++ List.replicate (n - xs.length) 0) i =
+      if i < n then (if i < xs.length then cell xs i else .live 0) else .raw := by
+  simp only [cell, List.length_append, List.length_take, List.length_replicate,
+    List.getD_eq_getElem?_getD, List.getElem?_append, List.getElem?_take, List.getElem?_replicate]
+  grind
+
+theorem cell_replicate (n i : Nat) : cell (List.replicate n 0) i = if i < n then .live 0 else .raw := by
+  simp only [cell, List.length_replicate, List.getD_eq_getElem?_getD, List.getElem?_replicate]
+  grind
+
+theorem getD_sub (xs : List Val) (f t k : Nat) (hk : k < t - f) :
+    ((xs.drop f).take (t - f)).getD k 0 = xs.getD (f + k) 0 := by
+  simp only [List.getD_eq_getElem?_getD, List.getElem?_take, List.getElem?_drop, hk, if_true]
+
+theorem cell_live {xs : List Val} {i : Nat} (h : i < xs.length) : cell xs i = .live (xs.getD i 0) := by
+  simp [cell, h]
+theorem cell_raw {xs : List Val} {i : Nat} (h : xs.length ≤ i) : cell xs i = .raw := by
+  simp [cell]; omega
+theorem cell_ne_raw {xs : List Val} {i : Nat} (h : i < xs.length) : cell xs i ≠ .raw := by
+  simp [cell, h]
+
+theorem deallocOk_of (b : Buf) (cap : Nat) (hn : b.n = cap) (h : ∀ j, j < b.n → b.s j = .raw) :
+    deallocOk b cap = true := by
+  simp only [deallocOk, Buf.allRaw, hn, beq_self_eq_true, Bool.true_and, List.all_eq_true, List.mem_range]
+  intro j hj
+  simp [h j (by omega)]
+
+theorem Rep.nil : Rep Vec.empty [] := by simp [Rep, Vec.empty]
+
+theorem changeBuffer_good {v : Vec} {xs : List Val} (h : Rep v xs) (sz : Nat) (hsz : xs.length ≤ sz) (l : Ledger) :
+    ∃ l', changeBuffer v sz l = some (⟨some ⟨sz, cell xs⟩, sz, xs.length⟩, l') ∧
+      l'.net = l.net ∧ l'.blocks = l.blocks + 1 - held v := by
+  obtain ⟨hs, hr⟩ := h
+  unfold changeBuffer
+  cases hd : v.data with
+  | none =>
+    rw [hd] at hr
+    obtain ⟨_, rfl⟩ := hr
+    refine ⟨l.addAlloc 1, ?_, ?_, ?_⟩
+    · simp only [Buf.fresh, hs, List.length_nil]
+      congr 3
+    · simp
+    · simp [held, hd]
+  | some b =>
+    rw [hd] at hr
+    obtain ⟨hn, hle, hc⟩ := hr
+    simp only
+    rw [moveCtorLoop_ok (fun j => xs.getD j 0)]
+    · simp only
+      rw [destroyRange_ok]
+      · simp only
+        rw [deallocOk_of]
+        · refine ⟨(((l.addAlloc 1).addMctor v.size).addDtor v.size).addDealloc 1, ?_, ?_, ?_⟩
+          · simp only [if_true, Buf.fresh, hs]
+            congr 3
+            apply congrArg
+            apply Buf.ext'
+            · rfl
+            · intro j; simp only [cell]; grind
+          · simp
+          · simp [held, hd]
+        · exact hn
+        · intro j hj
+          simp only
+          have := hc j
+          simp only [cell] at this
+          grind
+      · intro j h1 h2
+        simp only
+        grind
+    · intro j h1 h2
+      have := hc j
+      simp only [cell, Buf.fresh] at this ⊢
+      grind
+
 end Igris.C02
